@@ -69,6 +69,11 @@ Unreach(e) == { <<If(<<[c |-> EV(e), ch |-> <<Elem("x", <<>>, <<>>)>>]>>, FALSE,
               \cup (IF e.k = "call" THEN {} ELSE {<<For(EV(e), "item", "index", "", <<Text(<<P(Id("item"))>>)>>)>>})
 UB == {FileD(<<BmEl(EA, EB)>> \o u) : u \in UNION {Unreach(e) : e \in {EA, Mem(Id("o"), "p"), Idx(Id("l"), EB), Arr(<<Hole, Item(Id("s"))>>),
                                                                   Obj(<<Short("s")>>), Cond(Id("s"), EA, Lit("1")), Call(Id("f"), <<Id("s")>>)}}}
+      (* ONE binding mentioning two fields, the first of which is used at an unreachable position LATER in the document
+         (so it is withdrawn from the map after the binding was registered): the other field keeps its updaters *)
+      \cup {FileD(<<Elem("v", <<Attr("class", "", MV(<<P(Cond(EA, Lit("'on'"), Lit("'off'"))), S(" "), P(EB)>>)),
+                                  Attr("plain", "p", EV(Arr(<<Item(EA), Item(Id("s"))>>)))>>,
+                          <<Text(<<P(EA), S("/"), P(Mem(Id("o"), "p"))>>)>>)>> \o u) : u \in Unreach(EA)}
       \cup {FileD(<<BmEl(e1, e2)>>) : e1 \in Exprs, e2 \in {EB, Mem(Id("o"), "p")}}
       \cup {FileD(<<Text(<<P(EA), S("-"), P(EB)>>), Block(<<Text(<<P(Mem(Id("o"), "p"))>>), Elem("j", <<Attr("data:", "k", EV(Id("s")))>>, <<>>)>>),
                     Elem("o", <<Attr("id", "", EV(EB))>>, <<Elem("i", <<Attr("style", "", EV(EA)), Attr("mark:", "m", EV(Id("l")))>>, <<>>)>>)>>)}
